@@ -69,7 +69,7 @@ def pendingWl (w : CWl) : Bool := decide (w.updated < w.replicas) && w.currentRe
 /-- T3: a pinned stable Service names the rollout's stable revision, and no step handed to the BatchRelease so far is full -/
 def pinOK (s : CS) (sub : Sub) (w : CWl) : Bool :=
   match s.net.stableSel with
-  | some r => r == sub.stableRev && !fullAt s.ro w.replicas (effIdx s sub) && s.ro.hasTraffic && !s.ro.disableGen
+  | some r => r == sub.stableRev && r != "" && !fullAt s.ro w.replicas (effIdx s sub) && s.ro.hasTraffic && !s.ro.disableGen
   | none => true
 
 /-- T4: the canary Service selects the revision being released -/
@@ -105,9 +105,15 @@ def brSome (s : CS) (sub : Sub) : Bool :=
 def firstStepPins (ro : Rollout) (R : Int) : Bool :=
   ro.hasTraffic && !ro.disableGen && (weightOf ro 1).isSome && !fullAt ro R 1
 
-/-- T7 / **C03 (last sentence)**: on the first step, while a BatchRelease exists, the stable Service is pinned -/
+/-- T7 / **C03 (last sentence)**: on the first step, once `BeforeStepUpgrade` is left or a BatchRelease exists, the stable
+    Service is pinned -/
 def firstPin (s : CS) (sub : Sub) (w : CWl) : Bool :=
-  !(firstStepPins s.ro w.replicas && decide (sub.curIdx = 1) && s.br.isSome) || s.net.stableSel == selOf sub.stableRev
+  !(firstStepPins s.ro w.replicas && decide (sub.curIdx = 1) && (sub.state != .init || s.br.isSome)) ||
+  s.net.stableSel.getD "" == sub.stableRev
+
+/-- T9: `StepTrafficRouting` is only entered on steps that do not replace every pod (the full-replica bypass) -/
+def trState (s : CS) (sub : Sub) (w : CWl) : Bool :=
+  sub.state != .trafficRouting || !fullAt s.ro w.replicas sub.curIdx
 
 /-- the clean-up cursor has not reached `ResumeWorkload` -/
 def beforeResume (f : FinStep) : Bool :=
@@ -138,11 +144,11 @@ def trPhase (s : CS) (w : CWl) : Bool :=
   | .progressing, .initializing => netClean s.net && pendingWl w
   | .progressing, .inRolling =>
     (match s.ro.sub with
-     | some sub => netCore s sub w true && brSome s sub && firstPin s sub w
+     | some sub => netCore s sub w true && brSome s sub && firstPin s sub w && trState s sub w
      | none => false)
   | .progressing, .finalising =>
     (match s.ro.sub with
-     | some sub => netCore s sub w false && finBr s sub w
+     | some sub => netCore s sub w false && finBr s sub w && sub.canaryRev == w.updateRevision
      | none => false)
   | .progressing, .completed => netClean s.net && released w
   | _, _ => false
@@ -171,14 +177,14 @@ def trInvWhy (s : CS) : String :=
          if !(fullAt s.ro w.replicas (effIdx s sub) || stableAlive sub w) then "roll:alive" else
          if !pinOK s sub w then "roll:pin" else if !svcOK s w then "roll:svc" else if !ingOK s then "roll:ing" else
          if !hashOK sub w then "roll:hash" else if !baseOK s then "roll:base" else
-         if !brSome s sub then "roll:brSome" else if !firstPin s sub w then "roll:firstPin" else "ok"
+         if !brSome s sub then "roll:brSome" else if !firstPin s sub w then "roll:firstPin" else if !trState s sub w then "roll:trState" else "ok"
        | none => "roll:nosub")
     | .progressing, .finalising =>
       (match s.ro.sub with
        | some sub =>
          if !(s.net.stableSel.isNone || stableAlive sub w) then "fin:alive" else
          if !pinOK s sub w then "fin:pin" else if !svcOK s w then "fin:svc" else if !ingOK s then "fin:ing" else
-         if !hashOK sub w then "fin:hash" else if !baseOK s then "fin:base" else if !finBr s sub w then "fin:finBr" else "ok"
+         if !hashOK sub w then "fin:hash" else if !baseOK s then "fin:base" else if !finBr s sub w then "fin:finBr" else if !(sub.canaryRev == w.updateRevision) then "fin:rev" else "ok"
        | none => "fin:nosub")
     | .progressing, .completed => if !netClean s.net then "completed:net" else if released w then "ok" else "completed:released"
     | _, _ => "phase"
